@@ -23,6 +23,11 @@ from .. import known
 ID = 'C20'
 LEVEL = 'exploration'
 RULE = (
+    'Rule-generated long ramps (family long-ramp: monotone staircases of '
+    '100-127 steps per cell over 280-600 cells along x, down the first '
+    'column, or diagonal, so that the running step count passes 2^15) are '
+    'drawn (~1/12 of the field cases, ~1/10 of the file cases on 300-600 x '
+    '3-4 grids) and enumerated in every run.  '
     'Hypothesis, field level (~94% of cases): fields handed to pack2d as '
     'float32 or float64 arrays (family offset64: float64 values that are '
     'not float32-representable, offset + gradient finer than the float32 '
@@ -136,6 +141,51 @@ def field_offset64(draw):
     rows = [[base + gx * i + gy * j for i in range(nx)] for j in range(ny)]
     return dict(kind='field', family='offset64', ny=ny, nx=nx, rows=rows,
                 dtype='f8')
+
+
+def ramp_rows(ny, nx, direction, sign, e, lo, seed, base=0.0):
+    """rule-generated monotone ramp / staircase: every cell differs from
+    its predecessor (along x, down the first column for 'y', both for
+    'diag') by k quantisation steps of 2^e, lo <= k <= 127 with a
+    deterministic jitter, so the running step count grows by ~lo..127 per
+    cell for hundreds of cells; all values are exact REAL*4 numbers"""
+    q = 2.0 ** e
+
+    def k(idx):
+        return lo + (idx * 7 + seed * 13 + (idx // 5) * 3) % (128 - lo)
+    rows = []
+    col = 0
+    for j in range(ny):
+        if direction in ('y', 'diag') and j:
+            col += k(j)
+        acc = col
+        row = []
+        for i in range(nx):
+            if direction in ('x', 'diag') and i:
+                acc += k(j * 31 + i)
+            row.append(A.f32(base + sign * acc * q))
+        rows.append(row)
+    # the first step of the chain carries the largest difference so that the
+    # exponent is the intended one (steps of exactly 2^e)
+    return rows
+
+
+@st.composite
+def field_longramp(draw):
+    direction = draw(st.sampled_from(['x', 'x', 'y', 'diag']))
+    if direction == 'x':
+        ny, nx = draw(st.integers(1, 3)), draw(st.integers(280, 600))
+    elif direction == 'y':
+        ny, nx = draw(st.integers(280, 600)), draw(st.integers(2, 3))
+    else:
+        ny, nx = draw(st.integers(150, 220)), draw(st.integers(90, 110))
+    return dict(kind='field', family='long-ramp:' + direction,
+                ramp=dict(ny=ny, nx=nx, dir=direction,
+                          sign=draw(st.sampled_from([1, -1])),
+                          e=draw(st.integers(-12, 12)),
+                          lo=draw(st.sampled_from([100, 110, 120, 64])),
+                          seed=draw(st.integers(0, 50)),
+                          base=draw(st.sampled_from([0.0, 0.0, 1.0]))))
 
 
 @st.composite
@@ -312,6 +362,17 @@ def file_case(draw):
     # a small share of grids with >= 1000 cells on one side (the thousands
     # of NX / NY travel in the two grid characters of the label)
     big = draw(st.sampled_from([False] * 9 + [True]))
+    if draw(st.sampled_from([False] * 9 + [True])):
+        # long ramps through the file route: one long side
+        spec = draw(file_case_inner(nts=[1, 2], modes=['uniform'],
+                                    nlevs=[2], nsfcs=[1], nupps=[1]))
+        direction = draw(st.sampled_from(['x', 'y']))
+        n = draw(st.sampled_from([300, 400, 520, 600]))
+        m = draw(st.sampled_from([3, 4]))
+        spec['nx'], spec['ny'] = (n, m) if direction == 'x' else (m, n)
+        spec['ramp'] = dict(dir=direction, e=draw(st.integers(-6, 6)),
+                            lo=draw(st.sampled_from([100, 110, 120])))
+        return spec
     if big:
         spec = draw(file_case_inner(nts=[1, 2], modes=['uniform'],
                                     nlevs=[2], nsfcs=[1], nupps=[1, 2]))
@@ -400,7 +461,7 @@ def strategy(tier):
     fld = st.one_of(field_random(), field_random(), field_offset(),
                     field_constant(), field_ints(), field_maxdiff(),
                     field_maxdiff(), field_carry(), field_carry(),
-                    field_ksum255(), field_offset64())
+                    field_ksum255(), field_offset64(), field_longramp())
 
     def with_dtype(args):
         spec, f8 = args
@@ -416,6 +477,17 @@ def strategy(tier):
 def enumerate_cases(tier):
     for nx, ny in ([1003, 4], [4, 1003]):
         yield _big_file(nx, ny)
+    # long ramps (running step count beyond 2^15), field and file route
+    for direction, ny, nx in (('x', 1, 520), ('x', 2, 300), ('y', 520, 2),
+                              ('diag', 200, 100)):
+        for sign in (1, -1):
+            yield dict(kind='field', family='long-ramp:' + direction,
+                       ramp=dict(ny=ny, nx=nx, dir=direction, sign=sign, e=-3,
+                                 lo=110, seed=1, base=0.0))
+    for nx, ny, direction in ((520, 3, 'x'), (3, 520, 'y')):
+        f = _big_file(nx, ny)
+        f['ramp'] = dict(dir=direction, e=-3, lo=110)
+        yield f
     ks = range(-3, 4) if tier == 'quick' else range(-12, 13)
     for k in ks:
         for variant in ('below', 'below2', 'at', 'above'):
@@ -449,6 +521,8 @@ def _no_headroom(spec):
     (the REAL*4 log quotient may then come out just below the whole number
     and NEXP = log2(RMAX): exactly 128 steps)"""
     if spec.get('kind') == 'file':
+        return False
+    if 'rows' not in spec:
         return False
     rmax = A.rmax_of([[A.f32(v) for v in row] for row in spec['rows']])
     if rmax == 0:
@@ -484,7 +558,13 @@ def near_pow2(d):
 
 def check_field(spec):
     r = Result()
-    rows_in = spec['rows']
+    if 'ramp' in spec:
+        g = spec['ramp']
+        rows_in = ramp_rows(g['ny'], g['nx'], g['dir'], g['sign'], g['e'],
+                            g['lo'], g['seed'], g.get('base', 0.0) *
+                            2.0 ** (g['e'] + 7))
+    else:
+        rows_in = spec['rows']
     ny, nx = len(rows_in), len(rows_in[0])
     for row in rows_in:
         for v in row:
@@ -538,6 +618,8 @@ def check_field(spec):
     bound = stp * 256.0 / 254.0
     r.label('nexp' + ('<0' if nexp < 0 else '>=0'))
     klass = 'rmax~2^k' if np2 else ''
+    if float(np.abs(x.astype('f8') - float(x[0, 0])).max()) / stp > 32767:
+        r.label('excursion>32767steps')
     # more than 127 steps of the recorded exponent: no room for the carried
     # half step
     tight = rmax * 2.0 ** (7 - nexp) > 127.0
@@ -646,6 +728,13 @@ def file_model(spec):
             for key in keys:
                 base, amp, seed = spec['fields'][k]
                 k += 1
+                if spec.get('ramp'):
+                    # long monotone ramp (see ramp_rows), alternating sign
+                    g = spec['ramp']
+                    fields[(ti, li, key)] = ramp_rows(
+                        ny, nx, g['dir'], 1 if k % 2 else -1, g['e'],
+                        g['lo'], seed, 0.0)
+                    continue
                 fields[(ti, li, key)] = [
                     [A.f32(base + amp * _pattern(i, j, seed))
                      for i in range(nx)] for j in range(ny)]
@@ -672,6 +761,8 @@ def check_file(spec):
     r.nontrivial = bool(nt >= 2 and nlev >= 3)
     if nt >= 2 and nlev >= 3:
         r.label('multi-time-multi-level')
+    if spec.get('ramp'):
+        r.label('file-long-ramp:' + spec['ramp']['dir'])
     if spec['nx'] >= 1000 or spec['ny'] >= 1000:
         r.label('grid>=1000:%dx%d' % (spec['nx'] // 1000, spec['ny'] // 1000))
     ul = upper_lists(spec)
